@@ -113,7 +113,10 @@ class Harness:
         p = os.path.join(self.dir, name)
         with open(p, "w") as f:
             f.write(text)
-        self.mtime += 7
+        # the new modification time differs from every earlier one but is not always later: restoring an older copy of a
+        # file (cp -p, rsync -t, a checkout) moves it backwards, and the template must still be reloaded
+        self.writes = getattr(self, "writes", 0) + 1
+        self.mtime += 7 if self.writes % 2 else -3
         os.utime(p, (self.mtime, self.mtime))
 
     def apply(self, op):
